@@ -165,7 +165,7 @@ def main(chk):
     for _ in range(12):
         forests.append(gen_forest(rng, rng.randint(3, 6)))
     rng.setstate(st0)
-    for _ in range(10 if chk.tier == "quick" else 150):
+    for _ in range(10 if chk.tier == "quick" else 50):
         forests.append(gen_forest(rng, rng.randint(2, 8)))
     progs, meta = [], []
     preludes = []
